@@ -1,8 +1,15 @@
 ENGINES = [
-    {"name": "vkit (E2)", "path": "/verif/engine/vkit", "serves_properties": ["C15"], "kind_free_text": "bounded exhaustive enumeration of inputs/alterations with stable case indices, sharding and measured coverage"},
+    {"name": "venv (E3)", "path": "/verif/engine/venv", "serves_properties": ["C01"], "kind_free_text": "scripted crypto/rand.Reader + seeded CPRNG: every random draw is a choice point; executions with 0,1,2 deviations (min/max/short/error) are enumerated"},
+    {"name": "vkit (E2)", "path": "/verif/engine/vkit", "serves_properties": ["C01", "C15"], "kind_free_text": "bounded exhaustive enumeration of inputs/alterations with stable case indices, sharding and measured coverage"},
 ]
 NOT_BUILT_REASON = {}
 META = {
+    "C01": {
+        "engine": "vkit (E2) + venv (E3)",
+        "technique": "exhaustive alteration enumeration of honest proofs (fault enumeration) + environment-answer deviations, judged by a semantic oracle and an independent reference verifier",
+        "text": "For every credential shape (1..4/6 attributes, boundary-sized and hashed values) and every disclosure subset the honest proof is built by the real builder (also with each random draw forced to 0 / max / short), then every alteration of a fixed menu (leaf arithmetic, sibling swaps, key move/copy/delete/re-key, split of each hidden attribute into disclosed x + remainder, compensated pairs, k*ord shifts of each response across both range ends) is verified through ProofD.Verify and ProofList.Verify on toy, 1024- and 2048-bit keys.",
+        "note": "Trusted: harness trapdoor signer, reference verifier (written from the protocol description), math/big. Not reached: adversaries breaking strong RSA, three-field alterations, values outside the alphabet.",
+    },
     "C15": {
         "engine": "vkit (E2)",
         "technique": "bounded exhaustive input enumeration vs. independent reference model (hand-written DER + SHA-256)",
